@@ -13,8 +13,54 @@ value, to a break/return, to a panic, to a stop —
 namespace EvyV
 variable {F : Type}
 
+/-- the names a scope declares, in declaration order -/
+def keys (s : Scope F) : List Str := s.map Prod.fst
+
+/-- the scope stack afterwards against the one before: equally deep; the innermost scope has its old
+names plus, at the end, those declared meanwhile; every outer scope has exactly its old names -/
+def ScopesExt : List (Scope F) → List (Scope F) → Prop
+  | [], [] => True
+  | s :: rest, s' :: rest' => (∃ suf, keys s' = keys s ++ suf) ∧ rest'.map keys = rest.map keys
+  | _, _ => False
+
+namespace ScopesExt
+
+theorem refl : ∀ (l : List (Scope F)), ScopesExt l l
+  | [] => trivial
+  | _ :: _ => ⟨⟨[], by simp⟩, rfl⟩
+
+theorem of_keys_eq : ∀ (l l' : List (Scope F)), l'.map keys = l.map keys → ScopesExt l l'
+  | [], [], _ => trivial
+  | [], _ :: _, h => by simp at h
+  | _ :: _, [], h => by simp at h
+  | s :: rest, s' :: rest', h => by
+    simp only [List.map_cons, List.cons.injEq] at h
+    exact ⟨⟨[], by simp [h.1]⟩, h.2⟩
+
+theorem trans : ∀ {a b c : List (Scope F)}, ScopesExt a b → ScopesExt b c → ScopesExt a c
+  | [], [], [], _, _ => trivial
+  | [], [], _ :: _, _, h => h.elim
+  | [], _ :: _, _, h, _ => h.elim
+  | _ :: _, [], _, h, _ => h.elim
+  | _ :: _, _ :: _, [], _, h => h.elim
+  | s :: r, s' :: r', s'' :: r'', h1, h2 => by
+    obtain ⟨⟨u, hu⟩, e1⟩ := h1
+    obtain ⟨⟨w, hw⟩, e2⟩ := h2
+    exact ⟨⟨u ++ w, by rw [hw, hu, List.append_assoc]⟩, e2.trans e1⟩
+
+theorem length_eq : ∀ {a b : List (Scope F)}, ScopesExt a b → b.length = a.length
+  | [], [], _ => rfl
+  | [], _ :: _, h => h.elim
+  | _ :: _, [], h => h.elim
+  | _ :: r, _ :: r', h => by
+    have := congrArg List.length h.2
+    simp only [List.length_map] at this
+    simp [this]
+
+end ScopesExt
+
 structure Frame (st st' : St F) : Prop where
-  locals : st'.locals.length = st.locals.length
+  locals : ScopesExt st.locals st'.locals
   heap : st.heap.size ≤ st'.heap.size
   yields : st.yields ≤ st'.yields
   stopAt : st'.stopAt = st.stopAt
@@ -24,12 +70,12 @@ structure Frame (st st' : St F) : Prop where
 namespace Frame
 
 theorem refl (st : St F) : Frame st st :=
-  ⟨rfl, Nat.le_refl _, Nat.le_refl _, rfl, id, ⟨[], rfl⟩⟩
+  ⟨ScopesExt.refl _, Nat.le_refl _, Nat.le_refl _, rfl, id, ⟨[], rfl⟩⟩
 
 theorem trans {a b c : St F} (h1 : Frame a b) (h2 : Frame b c) : Frame a c := by
   obtain ⟨s1, e1⟩ := h1.trace
   obtain ⟨s2, e2⟩ := h2.trace
-  exact ⟨h2.locals.trans h1.locals, Nat.le_trans h1.heap h2.heap, Nat.le_trans h1.yields h2.yields,
+  exact ⟨h1.locals.trans h2.locals, Nat.le_trans h1.heap h2.heap, Nat.le_trans h1.yields h2.yields,
     h2.stopAt.trans h1.stopAt, fun h => h2.latch (h1.latch h), ⟨s2 ++ s1, by rw [e2, e1, List.append_assoc]⟩⟩
 
 /-- a state that differs from `b` only in fields the frame does not mention -/
@@ -55,25 +101,77 @@ theorem tick_frame (st st' : St F) (h : tick st = some st') : Frame st st' := by
   unfold tick at h
   cases hs : st.stopped <;> simp [hs] at h
   subst h
-  exact ⟨rfl, Nat.le_refl _, Nat.le_succ _, rfl, by simp [hs], ⟨[], rfl⟩⟩
+  exact ⟨ScopesExt.refl _, Nat.le_refl _, Nat.le_succ _, rfl, by simp [hs], ⟨[], rfl⟩⟩
 
 theorem alloc_frame (st : St F) (o : Obj F) : Frame st (alloc st o).2 :=
-  ⟨rfl, by simp [alloc], Nat.le_refl _, rfl, id, ⟨[], rfl⟩⟩
+  ⟨ScopesExt.refl _, by simp [alloc], Nat.le_refl _, rfl, id, ⟨[], rfl⟩⟩
 
 theorem heapSet_frame (st : St F) (a : Nat) (o : Obj F) : Frame st (heapSet st a o) :=
-  ⟨rfl, by simp [heapSet], Nat.le_refl _, rfl, id, ⟨[], rfl⟩⟩
+  ⟨ScopesExt.refl _, by simp [heapSet], Nat.le_refl _, rfl, id, ⟨[], rfl⟩⟩
 
 theorem emit_frame (st : St F) (e : Effect F) : Frame st (emit st e) :=
-  ⟨rfl, Nat.le_refl _, Nat.le_refl _, rfl, id, ⟨[e], rfl⟩⟩
+  ⟨ScopesExt.refl _, Nat.le_refl _, Nat.le_refl _, rfl, id, ⟨[e], rfl⟩⟩
+
+/-- binding a name keeps the names of the scope and adds the new one at the end -/
+theorem keys_scopeSet (s : Scope F) (n : Str) (v : Val F) : ∃ suf, keys (scopeSet s n v) = keys s ++ suf := by
+  induction s with
+  | nil => exact ⟨[n], by simp [scopeSet, keys]⟩
+  | cons p rest ih =>
+    obtain ⟨k, w⟩ := p
+    simp only [scopeSet]
+    split
+    · rename_i hk; exact ⟨[], by simp [keys, hk]⟩
+    · obtain ⟨suf, hs⟩ := ih
+      exact ⟨suf, by simp only [keys, List.map_cons, List.cons_append] at hs ⊢; rw [hs]⟩
+
+/-- rebinding a name that the scope has keeps its names exactly -/
+theorem keys_scopeSet_present (s : Scope F) (n : Str) (v : Val F) (h : (scopeGet s n).isSome) :
+    keys (scopeSet s n v) = keys s := by
+  induction s with
+  | nil => simp [scopeGet] at h
+  | cons p rest ih =>
+    obtain ⟨k, w⟩ := p
+    simp only [scopeSet]
+    split
+    · rename_i hk; simp [keys, hk]
+    · rename_i hk
+      have : (scopeGet rest n).isSome := by
+        unfold scopeGet at h ⊢
+        simp only [List.lookup] at h
+        have hne : (n == k) = false := by
+          cases hb : (n == k) with
+          | false => rfl
+          | true => exact absurd (by simpa using hb : n = k).symm hk
+        simpa [hne] using h
+      simp only [keys, List.map_cons] at ih ⊢
+      rw [ih this]
+
+theorem updateLocals_keys : ∀ (l : List (Scope F)) (n : Str) (v : Val F) (l' : List (Scope F)),
+    updateLocals l n v = some l' → l'.map keys = l.map keys := by
+  intro l
+  induction l with
+  | nil => intro n v l' h; simp [updateLocals] at h
+  | cons s rest ih =>
+    intro n v l' h
+    unfold updateLocals at h
+    split at h
+    · rename_i hs
+      simp at h; subst h
+      simp [keys_scopeSet_present s n v hs]
+    · simp only [Option.map_eq_some_iff] at h
+      obtain ⟨r, hr, rfl⟩ := h
+      simp [ih n v r hr]
 
 theorem setVar_frame (st : St F) (n : Str) (v : Val F) : Frame st (setVar st n v) := by
   unfold setVar
   split
   · exact Frame.refl _
   · split
-    · exact ⟨rfl, Nat.le_refl _, Nat.le_refl _, rfl, id, ⟨[], rfl⟩⟩
+    · exact ⟨ScopesExt.refl _, Nat.le_refl _, Nat.le_refl _, rfl, id, ⟨[], rfl⟩⟩
     · rename_i s rest hl
-      exact ⟨by simp [hl], Nat.le_refl _, Nat.le_refl _, rfl, id, ⟨[], rfl⟩⟩
+      refine ⟨?_, Nat.le_refl _, Nat.le_refl _, rfl, id, ⟨[], rfl⟩⟩
+      rw [hl]
+      exact ⟨keys_scopeSet s n v, rfl⟩
 
 theorem updateLocals_length : ∀ (l : List (Scope F)) (n : Str) (v : Val F) (l' : List (Scope F)),
     updateLocals l n v = some l' → l'.length = l.length := by
@@ -96,10 +194,10 @@ theorem updateVar_frame (st st' : St F) (n : Str) (v : Val F) (h : updateVar st 
   · split at h
     · rename_i l hl
       simp at h; subst h
-      exact ⟨by simp [updateLocals_length _ _ _ _ hl], Nat.le_refl _, Nat.le_refl _, rfl, id, ⟨[], rfl⟩⟩
+      exact ⟨ScopesExt.of_keys_eq _ _ (updateLocals_keys _ _ _ _ hl), Nat.le_refl _, Nat.le_refl _, rfl, id, ⟨[], rfl⟩⟩
     · split at h
       · simp at h; subst h
-        exact ⟨rfl, Nat.le_refl _, Nat.le_refl _, rfl, id, ⟨[], rfl⟩⟩
+        exact ⟨ScopesExt.refl _, Nat.le_refl _, Nat.le_refl _, rfl, id, ⟨[], rfl⟩⟩
       · simp at h
 
 theorem callExt_frame (ext : Ext F) (st : St F) (f : String) (args dflt : List (XArg F)) :
@@ -107,17 +205,20 @@ theorem callExt_frame (ext : Ext F) (st : St F) (f : String) (args dflt : List (
   unfold callExt
   split
   · exact Frame.refl _
-  · exact ⟨rfl, Nat.le_refl _, Nat.le_refl _, rfl, id, ⟨[], rfl⟩⟩
+  · exact ⟨ScopesExt.refl _, Nat.le_refl _, Nat.le_refl _, rfl, id, ⟨[], rfl⟩⟩
 
 /-- entering a block: one more scope; leaving it: one less -/
 theorem push_pop_frame (st st' : St F) (h : Frame (pushScope st) st') : Frame st (popScope st') := by
   obtain ⟨suf, hs⟩ := h.trace
   refine ⟨?_, h.heap, h.yields, h.stopAt, h.latch, ⟨suf, hs⟩⟩
-  have := h.locals
-  simp only [pushScope, List.length_cons] at this
-  simp only [popScope, List.length_tail]
-  omega
-
+  have hl := h.locals
+  simp only [pushScope] at hl
+  cases hl' : st'.locals with
+  | nil => rw [hl'] at hl; exact hl.elim
+  | cons s' rest' =>
+    rw [hl'] at hl
+    simp only [popScope, hl', List.tail_cons]
+    exact ScopesExt.of_keys_eq _ _ hl.2
 
 /-! ### helpers of the interpreter -/
 
@@ -338,7 +439,7 @@ theorem callExt_frame' (st st' : St F) (f : String) (a d r : List (XArg F)) (h :
   rw [h] at this; exact this
 
 theorem setGlobalErr_frame (st : St F) (b : Bool) (m : Str) : Frame st (setGlobalErr st b m) :=
-  ⟨rfl, Nat.le_refl _, Nat.le_refl _, rfl, id, ⟨[], rfl⟩⟩
+  ⟨ScopesExt.refl _, Nat.le_refl _, Nat.le_refl _, rfl, id, ⟨[], rfl⟩⟩
 
 theorem forward_frame (st : St F) (name : String) (xs : List (XArg F)) (d : XArg F) : FrameR st (forward ext st name xs d) := by
   unfold forward FrameR
@@ -349,7 +450,7 @@ theorem forward_frame (st : St F) (name : String) (xs : List (XArg F)) (d : XArg
   split <;> exact this
 
 theorem randLog_frame (st : St F) (q : List (XArg F)) : Frame st { st with randLog := q } :=
-  ⟨rfl, Nat.le_refl _, Nat.le_refl _, rfl, id, ⟨[], rfl⟩⟩
+  ⟨ScopesExt.refl _, Nat.le_refl _, Nat.le_refl _, rfl, id, ⟨[], rfl⟩⟩
 
 theorem gfxNums_frame (st : St F) (name : String) (args : List (Val F)) : FrameR st (gfxNums st name args) := by
   unfold gfxNums FrameR
@@ -566,7 +667,7 @@ theorem call_restore (fd : FuncDef F) (vs : List (Val F)) (st' st4 : St F)
   have h0 := calleeState_frame fd vs st'
   have h1 := h0.trans h
   obtain ⟨suf, hs⟩ := h1.trace
-  exact ⟨rfl, h1.heap, h1.yields, h1.stopAt, h1.latch, ⟨suf, hs⟩⟩
+  exact ⟨ScopesExt.refl _, h1.heap, h1.yields, h1.stopAt, h1.latch, ⟨suf, hs⟩⟩
 
 theorem evalCall_step (hB : BuiltinsOk ops ext) (n : Nat) (ih : AllFrame ops ext prog n) :
     ∀ (name : Str) (args : List (Expr F)) st, FrameR st (evalCall ops ext prog (n + 1) name args st) := by
@@ -908,11 +1009,11 @@ theorem frame_invariant : ∀ n, AllFrame ops ext prog n := allFrame ops ext pro
 found it: every block scope is popped on every exit path, a call restores the caller's scopes -/
 theorem scopes_balanced (n : Nat) (b : List (Stmt F)) (st : St F) :
     (execStmts ops ext prog n b st).st.locals.length = st.locals.length :=
-  ((frame_invariant ops ext prog n).2.2.2.2.2.2.1 b st).locals
+  ((frame_invariant ops ext prog n).2.2.2.2.2.2.1 b st).locals.length_eq
 
 theorem scopes_balanced_expr (n : Nat) (e : Expr F) (st : St F) :
     (evalE ops ext prog n e st).st.locals.length = st.locals.length :=
-  ((frame_invariant ops ext prog n).1 e st).locals
+  ((frame_invariant ops ext prog n).1 e st).locals.length_eq
 
 /-- C09: no object is ever freed or moved — an address that is valid stays valid, through any
 execution -/
@@ -929,6 +1030,136 @@ theorem stop_latched_effects_kept (n : Nat) (b : List (Stmt F)) (st : St F) :
   let f := (frame_invariant ops ext prog n).2.2.2.2.2.2.1 b st
   ⟨f.latch, f.stopAt, f.yields, f.trace⟩
 
+
+/-! ### block-local declarations do not leak -/
+
+/-- every scope has exactly the names it had -/
+def SameNames (st st' : St F) : Prop := st'.locals.map keys = st.locals.map keys
+
+theorem SameNames.refl (st : St F) : SameNames st st := rfl
+theorem SameNames.trans {a b c : St F} (h1 : SameNames a b) (h2 : SameNames b c) : SameNames a c :=
+  Eq.trans h2 h1
+
+theorem tick_sameNames (st st' : St F) (h : tick st = some st') : SameNames st st' := by
+  unfold tick at h
+  cases hs : st.stopped <;> simp [hs] at h
+  subst h; rfl
+
+/-- whatever ran inside a pushed scope, after the pop every scope has its old names -/
+theorem push_pop_sameNames (st st' : St F) (h : Frame (pushScope st) st') : SameNames st (popScope st') := by
+  have hl := h.locals
+  simp only [pushScope] at hl
+  cases hl' : st'.locals with
+  | nil => rw [hl'] at hl; exact hl.elim
+  | cons s' rest' =>
+    rw [hl'] at hl
+    simp only [SameNames, popScope, hl', List.tail_cons]
+    exact hl.2
+
+theorem updateVar_sameNames (st st' : St F) (n : Str) (v : Val F) (h : updateVar st n v = some st') : SameNames st st' := by
+  unfold updateVar at h
+  split at h
+  · simp at h; subst h; rfl
+  · split at h
+    · rename_i l hl
+      simp at h; subst h
+      exact updateLocals_keys _ _ _ _ hl
+    · split at h
+      · simp at h; subst h; rfl
+      · simp at h
+
+theorem execCond_sameNames (n : Nat) (c : Expr F) (b : List (Stmt F)) (st : St F) :
+    SameNames st (execCond ops ext prog n c b st).st := by
+  cases n with
+  | zero => simp only [execCond]; exact SameNames.refl _
+  | succ k =>
+    obtain ⟨ihE, _, _, _, _, ihBlock, _⟩ := frame_invariant ops ext prog k
+    simp only [execCond]
+    cases he : evalE ops ext prog k c (pushScope st) with
+    | err o s1 => exact push_pop_sameNames st s1 (frame_err (ihE c _) he)
+    | ok v s1 =>
+      have f1 : Frame (pushScope st) s1 := frame_ok (ihE c _) he
+      cases v with
+      | bool bv =>
+        cases bv with
+        | true =>
+          simp only
+          cases hx : execBlockNode ops ext prog k b s1 with
+          | err o s2 => exact push_pop_sameNames st s2 (f1.trans (frame_err (ihBlock b s1) hx))
+          | ok comp s2 => exact push_pop_sameNames st s2 (f1.trans (frame_ok (ihBlock b s1) hx))
+        | false => exact push_pop_sameNames st s1 f1
+      | _ => exact push_pop_sameNames st s1 f1
+
+theorem execIfChain_sameNames : ∀ (n : Nat) (cs : List (Expr F × List (Stmt F))) (e : Option (List (Stmt F))) (st : St F),
+    SameNames st (execIfChain ops ext prog n cs e st).st := by
+  intro n
+  induction n with
+  | zero => intro cs e st; simp only [execIfChain]; exact SameNames.refl _
+  | succ k ih =>
+    intro cs e st
+    cases cs with
+    | nil =>
+      simp only [execIfChain]
+      cases e with
+      | none => exact SameNames.refl _
+      | some body =>
+        simp only
+        have ihBlock := (frame_invariant ops ext prog k).2.2.2.2.2.1
+        cases hx : execBlockNode ops ext prog k body (pushScope st) with
+        | err o s2 => exact push_pop_sameNames st s2 (frame_err (ihBlock body _) hx)
+        | ok comp s2 => exact push_pop_sameNames st s2 (frame_ok (ihBlock body _) hx)
+    | cons cb rest =>
+      obtain ⟨c, body⟩ := cb
+      simp only [execIfChain]
+      have hc := execCond_sameNames ops ext prog k c body st
+      cases hx : execCond ops ext prog k c body st with
+      | err o s1 => rw [hx] at hc; exact hc
+      | ok r s1 =>
+        rw [hx] at hc
+        obtain ⟨comp, taken⟩ := r
+        cases taken with
+        | true => exact hc
+        | false => exact SameNames.trans hc (ih rest e s1)
+
+theorem execWhile_sameNames : ∀ (n : Nat) (c : Expr F) (b : List (Stmt F)) (st : St F),
+    SameNames st (execWhile ops ext prog n c b st).st := by
+  intro n
+  induction n with
+  | zero => intro c b st; simp only [execWhile]; exact SameNames.refl _
+  | succ k ih =>
+    intro c b st
+    simp only [execWhile]
+    have hc := execCond_sameNames ops ext prog k c b st
+    cases hx : execCond ops ext prog k c b st with
+    | err o s1 => rw [hx] at hc; exact hc
+    | ok r s1 =>
+      rw [hx] at hc
+      obtain ⟨comp, taken⟩ := r
+      cases taken with
+      | false => exact hc
+      | true =>
+        cases comp with
+        | brk => exact hc
+        | ret v => exact hc
+        | normal => exact SameNames.trans hc (ih c b s1)
+
+/-- **C10, whole programs**: an `if` / `else if` / `else` chain and a `while` loop, whatever their
+bodies declare and however they end, leave every scope with exactly the names it had: nothing declared
+in a block is visible after it, nothing visible before is lost -/
+theorem if_while_declare_nothing_outside (n : Nat) (s : Stmt F) (st : St F)
+    (hs : (∃ cs e, s = .ifS cs e) ∨ (∃ c b, s = .whileS c b)) :
+    SameNames st (execS ops ext prog n s st).st := by
+  cases n with
+  | zero => simp only [execS]; exact SameNames.refl _
+  | succ k =>
+    unfold execS
+    cases ht : tick st with
+    | none => exact SameNames.refl _
+    | some st1 =>
+      have ft := tick_sameNames st st1 ht
+      rcases hs with ⟨cs, e, rfl⟩ | ⟨c, b, rfl⟩
+      · exact SameNames.trans ft (execIfChain_sameNames ops ext prog k cs e st1)
+      · exact SameNames.trans ft (execWhile_sameNames ops ext prog k c b st1)
 
 theorem bindPayload_frame : ∀ (ps : List (Str × Ty)) (vs : List (Val F)) (st st' : St F),
     bindPayload ps vs st = some st' → Frame st st' := by
